@@ -119,6 +119,61 @@ func checkListGuard(c *Ctx, rule string, list *ssa.Function) {
 			}
 		})
 	}
+	// balanced accounting: once the counter is incremented, every return runs the deferred decrement
+	balanced := true
+	{
+		var incStore ssa.Instruction
+		allInstrs(list, func(i ssa.Instruction) {
+			if st, ok := i.(*ssa.Store); ok {
+				if r, ok := fieldOf(st.Addr); ok && r.is("Decoder", "listDepth") {
+					if b, ok := st.Val.(*ssa.BinOp); ok && b.Op == token.ADD {
+						incStore = i
+					}
+				}
+			}
+		})
+		if incStore != nil {
+			bf := mustFlow(list, facts{}, func(f facts, i ssa.Instruction) facts {
+				if i == incStore {
+					return f.with("incremented")
+				}
+				if d, ok := i.(*ssa.Defer); ok {
+					if mc, ok := d.Call.Value.(*ssa.MakeClosure); ok {
+						isDec := false
+						allInstrs(mc.Fn.(*ssa.Function), func(j ssa.Instruction) {
+							if st, ok := j.(*ssa.Store); ok {
+								if r, ok := fieldOf(st.Addr); ok && r.is("Decoder", "listDepth") {
+									isDec = true
+								}
+							}
+						})
+						if isDec {
+							return f.with("decrement-deferred")
+						}
+					}
+				}
+				return f
+			}, nil)
+			for _, ret := range returnsOf(list) {
+				if !(incStore.Block() == ret.Block() || reaches(incStore.Block(), ret.Block())) {
+					continue
+				}
+				fs, reach := bf.at(ret)
+				// only returns that can follow the increment matter
+				if reach && fs.has("incremented") && !fs.has("decrement-deferred") {
+					balanced = false
+				}
+				if reach && !fs.has("incremented") {
+					// a path may reach this return without the increment: check the may-version cheaply
+					if precedes(incStore, ret) && !fs.has("decrement-deferred") {
+						balanced = false
+					}
+				}
+			}
+		}
+	}
+	c.check(balanced, rule, "(*Decoder).List depth accounting is balanced", list.Pos(), "every return after the increment runs the deferred decrement",
+		"a return path after listDepth++ is not covered by the deferred decrement: the depth counter leaks and, after enough lists on one connection, every list is refused as too deep")
 	c.check(inc && cmp && dec && callbackGuarded && capVal > 0 && capVal <= 100000, rule, "(*Decoder).List depth guard", list.Pos(),
 		fmt.Sprintf("listDepth is incremented, compared with the cap %d before the callback runs, and decremented by a deferred function", capVal),
 		fmt.Sprintf("Decoder.List no longer bounds nesting (increment=%v compare=%v deferred-decrement=%v callback-guarded=%v cap=%d)", inc, cmp, dec, callbackGuarded, capVal))
